@@ -570,3 +570,186 @@ Proof.
   rewrite (Hwhit f eo Hfe j i pb Hj Hi Hp). unfold pb.
   rewrite ConvProofs.perm_involutive. try (f_equal; lia).
 Qed.
+
+(* ------------------------------------------------------------------ *)
+(** * Counts *)
+
+(** S: the record count after a write *)
+Lemma put_rows_length : forall (t : table) pos new, (pos <= length t)%nat ->
+  length (put_rows t pos new) = Nat.max (length t) (pos + length new).
+Proof.
+  intros t pos new H. unfold put_rows. rewrite !app_length, firstn_length, skipn_length. lia.
+Qed.
+
+Lemma nth_firstn_lt : forall {A} (l : list A) n i d, (i < n)%nat -> nth i (firstn n l) d = nth i l d.
+Proof.
+  induction l as [|x t IH]; intros n i d H; [rewrite firstn_nil; reflexivity|].
+  destruct n; [lia|]. destruct i; [reflexivity|]. cbn. apply IH. lia.
+Qed.
+
+Lemma nth_skipn_add : forall {A} (l : list A) n i d, nth i (skipn n l) d = nth (n + i) l d.
+Proof.
+  induction l as [|x t IH]; intros n i d; [rewrite skipn_nil; destruct i, n; reflexivity|].
+  destruct n; [reflexivity|]. cbn. apply IH.
+Qed.
+
+(** S: records outside the written range are untouched, records inside are the new ones *)
+Lemma put_rows_nth : forall (t : table) pos new i d, (pos <= length t)%nat ->
+  nth i (put_rows t pos new) d =
+  if (i <? pos)%nat then nth i t d else if (i <? pos + length new)%nat then nth (i - pos) new d else nth i t d.
+Proof.
+  intros t pos new i d H. unfold put_rows.
+  destruct (i <? pos)%nat eqn:E1.
+  - apply Nat.ltb_lt in E1. rewrite app_nth1 by (rewrite firstn_length; lia).
+    apply nth_firstn_lt. lia.
+  - apply Nat.ltb_ge in E1. rewrite app_nth2 by (rewrite firstn_length; lia). rewrite firstn_length.
+    replace (Nat.min pos (length t)) with pos by lia.
+    destruct (i <? pos + length new)%nat eqn:E2.
+    + apply Nat.ltb_lt in E2. rewrite app_nth1 by lia. reflexivity.
+    + apply Nat.ltb_ge in E2. rewrite app_nth2 by lia. rewrite nth_skipn_add. f_equal. lia.
+Qed.
+
+(** M: VSwrite's new record count (vrw.c: new_size = position / ivsize + nelt; if (new_size > nvertices) ...) *)
+Lemma vswrite_nvert : forall w fil uil nelt vtb position nvert m vt r,
+  m_vswrite_mem w fil uil nelt vtb position nvert m vt = Some r ->
+  wr_nvert r = Z.max nvert (Z.quot position (wl_ivsize w) + nelt).
+Proof.
+  intros w fil uil nelt vtb position nvert m vt r H. unfold m_vswrite_mem in H.
+  assert (G : (if vswrite_grow_cond (vswrite_new_size position (wl_ivsize w) nelt) nvert =? 0 then nvert
+               else vswrite_new_size position (wl_ivsize w) nelt) = Z.max nvert (Z.quot position (wl_ivsize w) + nelt)).
+  { unfold vswrite_grow_cond, vswrite_new_size.
+    destruct (nvert <? Z.quot position (wl_ivsize w) + nelt) eqn:E; cbn.
+    - apply Z.ltb_lt in E. lia.
+    - apply Z.ltb_ge in E. lia. }
+  destruct (negb (vswrite_ec_cond (Z.of_nat (length (wl_fields w))) uil fil =? 0)).
+  - destruct (wr_ec_chunks _ _ _ _ _ _ _); inversion H; subst; cbn [wr_nvert]; exact G.
+  - match type of H with match ?X with _ => _ end = _ => destruct X end; inversion H; subst; cbn [wr_nvert]; exact G.
+Qed.
+
+(** M: the offsets VSsetfields stores are the running sums of the field sizes (no 16-bit wrap below 65536) *)
+Lemma set_offsets_isize : forall fl uj, map w_isize (set_offsets uj fl) = map w_isize fl.
+Proof. induction fl as [|f t IH]; intros uj; [reflexivity|]. cbn. f_equal. apply IH. Qed.
+
+Lemma isum_map : forall fl, isum fl = fold_right Z.add 0 (map w_isize fl).
+Proof. induction fl as [|f t IH]; [reflexivity|]. cbn. unfold isum in IH. rewrite <- IH. reflexivity. Qed.
+
+Lemma set_offsets_ok : forall fl uj, 0 <= uj -> Forall (fun f => 0 <= w_isize f) fl -> uj + isum fl < 65536 ->
+  offs_ok uj (set_offsets uj fl).
+Proof.
+  induction fl as [|f t IH]; intros uj Huj Hnn Hs; [exact I|].
+  inversion Hnn as [|? ? Hf Ht]; subst.
+  cbn [isum fold_right] in Hs. fold (isum t) in Hs.
+  assert (0 <= isum t).
+  { clear - Ht. unfold isum. induction Ht; cbn; lia. }
+  cbn [set_offsets offs_ok w_off w_isize]. unfold u16.
+  rewrite !Z.mod_small by lia. split; [reflexivity|]. apply IH; try assumption; lia.
+Qed.
+
+(* ------------------------------------------------------------------ *)
+(** * S: read after write on the table *)
+Lemma rows_put_rows : forall (t : table) pos new, (pos <= length t)%nat ->
+  rows (put_rows t pos new) pos (length new) = new.
+Proof.
+  intros t pos new H. unfold rows, put_rows.
+  assert (E : length (firstn pos t) = pos) by (rewrite firstn_length; lia).
+  rewrite skipn_app. rewrite (skipn_all2 (firstn pos t)) by lia. rewrite E, Nat.sub_diag. cbn [skipn app].
+  rewrite firstn_app, firstn_all, Nat.sub_diag. cbn [firstn]. apply app_nil_r.
+Qed.
+
+Lemma project_rows_put_rows : forall (t : table) pos new fl full, (pos <= length t)%nat ->
+  read_buf full fl (put_rows t pos new) pos (length new) = layout full (length fl) (project fl new).
+Proof. intros. unfold read_buf. rewrite rows_put_rows by assumption. reflexivity. Qed.
+
+(* ------------------------------------------------------------------ *)
+(** * The model follows the current source: the conversion calls / pointer updates of VSwrite and VSread and the
+    field order of the header codec that VSModel.v was written from ([*_modelled], written by hand) are what the
+    translator finds in the current vrw.c / vio.c ([Gen_VS.VSwrite_skeleton] ...).  An edit of those statements
+    changes gen/Gen_VS.v and breaks these lemmas. *)
+From Coq Require Import String.
+Local Open Scope string_scope.
+Definition VSwrite_skeleton_modelled : list string :=
+  ["dest = (0);";
+   "int_size = 0, j = 0;";
+   "int_size += w->esize[j];";
+   "done = 0;";
+   "Src = buf;";
+   "dest = Vtbuf;";
+   "bytes = hdf_size * chunk;";
+   "bytes = hdf_size * chunk;";
+   "offset = 0;";
+   "src = Src + offset;";
+   "dest = Vtbuf + w->off[j];";
+   "DFKconvert(src, dest, type, chunk, 2, int_size, hdf_size);";
+   "dest += isize / order;";
+   "src += esize / order;";
+   "offset += esize;";
+   "done += chunk;";
+   "Src += chunk * int_size;";
+   "src = buf;";
+   "dest = Vtbuf + w->off[j];";
+   "DFKconvert(src, dest, type, nelt, 2, esize, hdf_size);";
+   "src += esize / order;";
+   "dest += isize / order;";
+   "src += ((nelt - 1) * esize);";
+   "src = buf;";
+   "dest = Vtbuf + w->off[j] * nelt;";
+   "DFKconvert(src, dest, type, nelt, 2, esize, isize);";
+   "dest += isize / order;";
+   "src += esize / order;";
+   "src += ((nelt - 1) * esize);";
+   "offset = 0;";
+   "src = buf + offset;";
+   "dest = Vtbuf + w->off[j] * nelt;";
+   "DFKconvert(src, dest, type, nelt, 2, int_size, isize);";
+   "dest += isize / order;";
+   "src += esize / order;";
+   "offset += esize;"].
+Definition VSread_skeleton_modelled : list string :=
+  ["b1 = (0);";
+   "b2 = (0);";
+   "done = 0;";
+   "Src = buf;";
+   "bytes = hsize * chunk;";
+   "uvsize = 0, j = 0;";
+   "uvsize += w->esize[r->item[j]];";
+   "bytes = hsize * chunk;";
+   "DFKconvert(Vtbuf, Src, w->type[0], w->order[0] * chunk, 1, 0, 0);";
+   "offset = 0;";
+   "b1 = Src + offset;";
+   "b2 = Vtbuf + w->off[i];";
+   "DFKconvert(b2, b1, type, chunk, 1, hsize, uvsize);";
+   "b1 += esize / order;";
+   "b2 += isize / order;";
+   "offset += esize;";
+   "done += chunk;";
+   "Src += chunk * uvsize;";
+   "b1 = buf;";
+   "b2 = Vtbuf + w->off[i];";
+   "DFKconvert(b2, b1, type, nelt, 1, hsize, esize);";
+   "b2 += isize / order;";
+   "b1 += esize / order;";
+   "b1 += ((nelt - 1) * esize);";
+   "b1 = buf;";
+   "b2 = Vtbuf + w->off[i] * nelt;";
+   "DFKconvert(b2, b1, type, nelt, 1, isize, esize);";
+   "b1 += esize / order;";
+   "b2 += isize / order;";
+   "b1 += ((nelt - 1) * esize);";
+   "uvsize = 0, j = 0;";
+   "uvsize += w->esize[r->item[j]];";
+   "offset = 0;";
+   "b1 = buf + offset;";
+   "b2 = Vtbuf + w->off[i] * nelt;";
+   "DFKconvert(b2, b1, type, nelt, 1, isize, uvsize);";
+   "b1 += esize / order;";
+   "b2 += isize / order;";
+   "offset += isize;"].
+Definition vpackvs_order_modelled : list (Z * string) :=
+  [(2, "interlace"); (4, "nvertices"); (2, "ivsize"); (2, "n"); (2, "type_i"); (2, "isize_i"); (2, "off_i"); (2, "order_i"); (2, "slen"); (2, "slen"); (2, "slen"); (2, "extag"); (2, "exref"); (2, "version"); (2, "more"); (4, "flags"); (4, "nattrs"); (4, "alist_i_findex"); (2, "alist_i_atag"); (2, "alist_i_aref"); (2, "version"); (2, "more")].
+Definition vunpackvs_order_modelled : list (Z * string) :=
+  [(2, "uint16var"); (2, "uint16var"); (2, "interlace"); (4, "nvertices"); (2, "ivsize"); (2, "int16var"); (2, "type_i"); (2, "isize_i"); (2, "off_i"); (2, "order_i"); (2, "int16var"); (2, "int16var"); (2, "int16var"); (2, "extag"); (2, "exref"); (2, "temp"); (2, "temp"); (4, "flags"); (4, "nattrs"); (4, "alist_i_findex"); (2, "alist_i_atag"); (2, "alist_i_aref")].
+Local Close Scope string_scope.
+Lemma model_follows_source_lemma :
+  VSwrite_skeleton = VSwrite_skeleton_modelled /\ VSread_skeleton = VSread_skeleton_modelled /\
+  vpackvs_order = vpackvs_order_modelled /\ vunpackvs_order = vunpackvs_order_modelled.
+Proof. repeat split; reflexivity. Qed.
